@@ -1,0 +1,192 @@
+//! Verification hooks.
+//!
+//! This module only exists when the crate is compiled with `--cfg cobweb_verif`. It provides a thread-local event sink
+//! that the verification harness installs, plus read-only snapshots of internal bookkeeping. With the cfg off nothing in
+//! this file (and none of the `#[cfg(cobweb_verif)]` call sites) is compiled.
+
+//local shortcuts
+use crate::prelude::*;
+
+//third-party shortcuts
+use bevy::prelude::*;
+
+//standard shortcuts
+use std::any::TypeId;
+use std::cell::{Cell, RefCell};
+
+//-------------------------------------------------------------------------------------------------------------------
+
+/// One observation emitted by a hook (or by the harness itself through [`Event::User`]).
+#[derive(Debug, Clone)]
+pub enum Event
+{
+    /// Harness-level record (already serialized by the harness).
+    User(String),
+    /// `Command::apply` of a system command / system event / reaction command.
+    Cmd{
+        kind: &'static str,
+        sys: Entity,
+        src: Option<Entity>,
+        rtype: Option<(&'static str, TypeId)>,
+        data: Option<Entity>,
+    },
+    /// A trigger is being dispatched (header; followed by one `Queued` per reaction command actually queued).
+    Sched{ trig: &'static str, ty: Option<TypeId>, ent: Option<Entity> },
+    /// A reaction command was queued for the last `Sched`.
+    Queued{ sys: Entity, data: Option<Entity> },
+    /// `syscommand_runner` entered.
+    Enter{ k: u64, sys: Entity, idx: usize },
+    Abort{ k: u64, why: &'static str },
+    Postpone{ k: u64 },
+    Take{ k: u64 },
+    Reinsert{ sys: Entity },
+    DropCallback{ sys: Entity },
+    Replay{ k: u64 },
+    Discard{ k: u64 },
+    Exit{ k: u64 },
+    /// `garbage_collect_entities` started / despawned an entity that still existed / finished.
+    GcStart,
+    GcDespawn{ ent: Entity },
+    GcEnd,
+    /// `schedule_removal_and_despawn_reactors` started / finished (after its flush).
+    PollStart,
+    PollEnd,
+    /// The `once` wrapper despawned its own entity (`alive`: whether it still existed).
+    OnceDespawn{ sys: Entity, alive: bool },
+}
+
+//-------------------------------------------------------------------------------------------------------------------
+
+thread_local!
+{
+    static SINK: RefCell<Option<Vec<Event>>> = const { RefCell::new(None) };
+    static NEXT_ID: Cell<u64> = const { Cell::new(1) };
+}
+
+/// Installs an empty sink on this thread and resets the command-id counter.
+pub fn install()
+{
+    SINK.with(|s| *s.borrow_mut() = Some(Vec::new()));
+    NEXT_ID.with(|n| n.set(1));
+}
+
+/// Removes the sink from this thread and returns everything recorded.
+pub fn uninstall() -> Vec<Event>
+{
+    SINK.with(|s| s.borrow_mut().take()).unwrap_or_default()
+}
+
+/// Takes the events recorded so far, leaving the sink installed.
+pub fn drain() -> Vec<Event>
+{
+    SINK.with(|s| s.borrow_mut().as_mut().map(std::mem::take)).unwrap_or_default()
+}
+
+/// Records an event if a sink is installed on this thread.
+pub fn emit(event: Event)
+{
+    SINK.with(|s| { if let Some(v) = s.borrow_mut().as_mut() { v.push(event); } });
+}
+
+/// Fresh identity for a `SystemCommandSetup`.
+pub fn next_id() -> u64
+{
+    NEXT_ID.with(|n| { let id = n.get(); n.set(id + 1); id })
+}
+
+pub(crate) fn rtype_parts(rtype: EntityReactionType) -> (&'static str, TypeId)
+{
+    match rtype
+    {
+        EntityReactionType::Insertion(id) => ("ins", id),
+        EntityReactionType::Mutation(id)  => ("mut", id),
+        EntityReactionType::Removal(id)   => ("rem", id),
+        EntityReactionType::Event(id)     => ("eev", id),
+    }
+}
+
+//-------------------------------------------------------------------------------------------------------------------
+
+/// Internal bookkeeping that must be back at rest between reaction trees.
+#[derive(Debug, Clone, Default)]
+pub struct Snapshot
+{
+    pub counter: usize,
+    pub buffered: usize,
+    /// `prepared.len()` of the event / system event / entity reaction / despawn trackers.
+    pub prepared: [usize; 4],
+    /// `currently_reacting` of the same four trackers.
+    pub reacting: [bool; 4],
+    /// Whether the despawn tracker still holds a reactor handle.
+    pub despawn_handle_held: bool,
+    /// Number of entities with a `DataEntityCounter`.
+    pub data_entities: usize,
+    /// System command entities whose callback is missing from storage.
+    pub callbacks_missing: Vec<Entity>,
+}
+
+pub fn snapshot(world: &mut World) -> Snapshot
+{
+    let mut snap = Snapshot::default();
+    snap.counter = world.get_resource::<SyscommandCounter>().map(|c| **c).unwrap_or(0);
+    snap.buffered = world.get_resource::<CobwebCommandQueue<BufferedSyscommand>>().map(|q| q.verif_len()).unwrap_or(0);
+    if let Some(t) = world.get_resource::<EventAccessTracker>() {
+        let (r, n) = t.verif_state(); snap.reacting[0] = r; snap.prepared[0] = n;
+    }
+    if let Some(t) = world.get_resource::<SystemEventAccessTracker>() {
+        let (r, n) = t.verif_state(); snap.reacting[1] = r; snap.prepared[1] = n;
+    }
+    if let Some(t) = world.get_resource::<EntityReactionAccessTracker>() {
+        let (r, n) = t.verif_state(); snap.reacting[2] = r; snap.prepared[2] = n;
+    }
+    if let Some(t) = world.get_resource::<DespawnAccessTracker>() {
+        let (r, n, h) = t.verif_state(); snap.reacting[3] = r; snap.prepared[3] = n; snap.despawn_handle_held = h;
+    }
+    snap.data_entities = world.query::<&DataEntityCounter>().iter(world).count();
+    snap.callbacks_missing = world.query::<(Entity, &SystemCommandStorage)>()
+        .iter(world)
+        .filter(|(_, s)| !s.verif_has_callback())
+        .map(|(e, _)| e)
+        .collect();
+    snap
+}
+
+//-------------------------------------------------------------------------------------------------------------------
+
+/// One registration as stored in the framework's tables.
+#[derive(Debug, Clone)]
+pub struct TableEntry
+{
+    /// "bc", "res", "anyev", "ins", "mut", "rem", "eins", "emut", "erem", "eev", "desp"
+    pub kind: &'static str,
+    pub ty: Option<TypeId>,
+    pub ent: Option<Entity>,
+    pub sys: Entity,
+    /// Whether the stored handle is reference-counted.
+    pub rc: bool,
+}
+
+pub fn tables(world: &mut World) -> Vec<TableEntry>
+{
+    let mut out = Vec::new();
+    if let Some(cache) = world.get_resource::<ReactCache>() { cache.verif_tables(&mut out); }
+    for (entity, reactors) in world.query::<(Entity, &EntityReactors)>().iter(world)
+    {
+        reactors.verif_entries(entity, &mut out);
+    }
+    out
+}
+
+/// Whether `entity` currently carries the local data of entity world reactor `T`.
+pub fn has_entity_world_local<T: EntityWorldReactor>(world: &World, entity: Entity) -> bool
+{
+    world.get_entity(entity).map(|e| e.contains::<EntityWorldLocal<T>>()).unwrap_or(false)
+}
+
+/// Components with a removal checker installed, in installation order.
+pub fn tracked_removals(world: &World) -> Vec<TypeId>
+{
+    world.get_resource::<ReactCache>().map(|c| c.verif_tracked()).unwrap_or_default()
+}
+
+//-------------------------------------------------------------------------------------------------------------------
